@@ -233,5 +233,76 @@ func replayBind(args []string) (any, error) {
 		}
 		return nil
 	})
+	nestedVariadic(sum)
 	return sum, err
+}
+
+// nestedVariadic: calls nested inside the variadic tail of other calls, after earlier calls in the same run. A trailing variadic
+// parameter receives all remaining positional arguments in order - also when evaluating one of them runs another variadic call
+// (of the same or another function), whatever ran before. The expected bindings follow from evaluating arguments left to right.
+func nestedVariadic(sum *Summary) {
+	var got [][]any
+	params := []*runtimev2.Param{{Name: "xs", Variable: true}}
+	pfx := []*runtimev2.Param{{Name: "a"}, {Name: "xs", Variable: true}}
+	mk := func(ps []*runtimev2.Param) *runtimev2.Fn {
+		return &runtimev2.Fn{
+			CallCheck: func(ctx *runtimev2.Task, e *ast.CallExpr) *errchain.PlError {
+				return runtimev2.CheckPassParam(ctx, e, ps)
+			},
+			Call: func(ctx *runtimev2.Task, e *ast.CallExpr) *errchain.PlError {
+				var rec []any
+				total := int64(0)
+				for i := range ps {
+					x, err := runtimev2.GetParam(ctx, e, ps, i)
+					if err != nil {
+						return err
+					}
+					if l, ok := x.([]any); ok {
+						rec = append(rec, append([]any{}, l...)...)
+						for _, y := range l {
+							if n, ok := y.(int64); ok {
+								total += n
+							}
+						}
+					} else {
+						rec = append(rec, x)
+						if n, ok := x.(int64); ok {
+							total += n
+						}
+					}
+				}
+				got = append(got, rec)
+				ctx.Regs.ReturnAppend(runtimev2.V{V: total, T: ast.Int})
+				return nil
+			},
+		}
+	}
+	fns := map[string]*runtimev2.Fn{"sum": mk(params), "psum": mk(pfx)}
+	text := "r1 = sum(1, 2, 3)\nr2 = sum(1, sum(7, 8), 3)\nr3 = sum(sum(1), sum(2, sum(3, 4)), 5)\nr4 = psum(1, 2, psum(3, 4, 5), sum(), 6)\nfor i = 0; i < 2; i = i + 1 {\nr5 = sum(i, sum(10, i), sum(i, sum(i, 20)))\n}"
+	want := [][]any{{1, 2, 3}, {7, 8}, {1, 15, 3}, {1}, {3, 4}, {2, 7}, {1, 9, 5}, {3, 4, 5}, {}, {1, 2, 12, 0, 6},
+		{10, 0}, {0, 20}, {0, 20}, {0, 10, 20}, {10, 1}, {1, 20}, {1, 21}, {1, 11, 22}}
+	sum.Evaluations++
+	sc, err := engine.ParseV2("nested.p", text, fns)
+	if err != nil {
+		sum.miss("bind-nested:load", map[string]any{"script": text, "load_err": err.Error()})
+		return
+	}
+	if e := sc.Run(nil); e != nil {
+		sum.miss("bind-nested:run", map[string]any{"script": text, "run_err": e.Error()})
+		return
+	}
+	norm := func(xs [][]any) string {
+		var b strings.Builder
+		for _, r := range xs {
+			b.WriteString("[")
+			for _, v := range r {
+				fmt.Fprintf(&b, "%v ", v)
+			}
+			b.WriteString("]")
+		}
+		return b.String()
+	}
+	if norm(got) != norm(want) {
+		sum.miss("bind-nested:bindings", map[string]any{"script": text, "want": norm(want), "got": norm(got)})
+	}
 }
